@@ -2,6 +2,7 @@
 # builds the engine offline from files on disk
 set -e
 export GOFLAGS=-mod=mod GOPROXY=off GOSUMDB=off GOTOOLCHAIN=local
-mkdir -p /verif/bin /verif/.cache/go-build /verif/evidence /verif/replays
-cd /verif/engine && go build -o /verif/bin/gosmt .
+V="$(dirname "$(dirname "$(readlink -f "$0")")")"
+mkdir -p $V/bin $V/.cache/go-build $V/evidence $V/replays
+cd $V/engine && go build -o $V/bin/gosmt .
 echo "gosmt built"
